@@ -200,6 +200,37 @@ Theorem C15_segment_bounds : forall (b : R) (nmin : nat) (T : list R),
 Proof. intros b nmin T. split; [apply seg_lo_le | apply seg_hi_ge]. Qed.
 Print Assumptions C15_segment_bounds.
 
+(* ------------------------------------------------------------------ out of sample, from the stored parameters *)
+
+Print param_gap.
+Print side_gap_n.
+Print free_bp.
+
+(* a stored document (admissible, off the corner: C11) stays within param_gap of the generating curve at EVERY temperature
+   of the range: |intercept - base| + per side |slope difference| x reach of the range beyond the balance point
+   + slope x |balance-point difference| + slope x smoothing length *)
+Theorem C15_parameters_close_curve_close : forall (c : coeffs NR) (tc : tconstr NR) (p : building NR) (Tlo Thi T : R),
+  admissible lo hi c tc -> off_corner lo hi c tc -> Tlo <= T <= Thi ->
+  Rabs (predicted lo hi c tc T - gen_curve NR p T) <= param_gap NR (eff lo hi c tc) p Tlo Thi.
+Proof. exact document_gap. Qed.
+Print Assumptions C15_parameters_close_curve_close.
+
+(* hence the statement's out-of-sample inequality for EVERY weather year whose temperatures stay in the range
+   (harness/c15.py evaluates param_gap for every fitted model and reports for how many it is below 5 % of the base load) *)
+Theorem C15_out_of_sample_from_parameters : forall (c : coeffs NR) (tc : tconstr NR) (p : building NR)
+    (Tlo Thi lim m : R) (T2 : list R),
+  admissible lo hi c tc -> off_corner lo hi c tc -> 0 <= lim -> 0 <= m ->
+  Forall (fun t => Tlo <= t <= Thi) T2 ->
+  param_gap NR (eff lo hi c tc) (free_bp NR p (eff lo hi c tc)) Tlo Thi <= lim * m ->
+  nrmse_ok NR lim (map (predicted lo hi c tc) T2) (map (gen_curve NR p) T2) m = true.
+Proof. exact out_of_sample_from_parameters. Qed.
+Print Assumptions C15_out_of_sample_from_parameters.
+
+Theorem C15_pointwise_bound_gives_rmse : forall (D : R) (f g : list R), 0 <= D ->
+  Forall2 (fun a b => Rabs (a - b) <= D) f g -> RMSE f g <= D.
+Proof. exact rmse_pointwise. Qed.
+Print Assumptions C15_pointwise_bound_gives_rmse.
+
 (* ------------------------------------------------------------------ no load where there is no slope *)
 
 (* a model stored as temperature independent: prediction = intercept, zero heating and cooling load, at every
@@ -309,6 +340,31 @@ Proof.
   rewrite (proj2 (Rleb_false 50 40)) by lra. rewrite (proj2 (Rleb_false 50 45)) by lra.
   rewrite (proj2 (Rleb_true 50 60)) by lra. rewrite (proj2 (Rleb_true 50 65)) by lra.
   reflexivity.
+Qed.
+
+(* a stored two-sided document whose base load is off by 0.1: within 5 % of a mean usage of 20 on every weather year
+   between 0 F and 100 F *)
+Definition ex_fit_doc : coeffs NR := Build_coeffs NR HddTiddCdd (201 / 10) (Some 52) (Some (12 / 10)) None (Some 68) (Some (8 / 10)) None.
+Example ex_out_of_sample : forall T2 : list R, Forall (fun t => 0 <= t <= 100) T2 ->
+  nrmse_ok NR (5 / 100) (map (predicted lo hi ex_fit_doc ex_tc) T2) (map (gen_curve NR ex_p) T2) 20 = true.
+Proof.
+  intros T2 HT.
+  assert (A : admissible lo hi ex_fit_doc ex_tc) by (unfold admissible, bounds_ok; cbn; lra).
+  assert (O : off_corner lo hi ex_fit_doc ex_tc)
+    by (apply (upper_below_Tmax_off_corner lo hi ex_fit_doc ex_tc A); cbn; lra).
+  apply (C15_out_of_sample_from_parameters ex_fit_doc ex_tc ex_p 0 100); try assumption; try lra.
+  unfold eff, ex_fit_doc, ex_tc. unfold RNum. rewrite effective_both by lra.
+  unfold param_gap, side_gap_n, free_bp, ex_p. cbn [x_intercept x_hdd_beta x_hdd_k x_hdd_bp x_cdd_beta x_cdd_k x_cdd_bp b_base b_hbeta b_hbp b_cbeta b_cbp].
+  change (@n_eqb (RNumOf lo hi) (12 / 10) n_zero) with (Reqb (12 / 10) 0).
+  change (@n_eqb (RNumOf lo hi) (8 / 10) n_zero) with (Reqb (8 / 10) 0).
+  rewrite (proj2 (Reqb_false (12 / 10) 0)) by lra. rewrite (proj2 (Reqb_false (8 / 10) 0)) by lra.
+  cbn [b_base b_hbeta b_hbp b_cbeta b_cbp].
+  change (@n_add (RNumOf lo hi)) with Rplus. change (@n_sub (RNumOf lo hi)) with Rminus.
+  change (@n_mul (RNumOf lo hi)) with Rmult. change (@n_abs (RNumOf lo hi)) with Rabs.
+  replace (12 / 10 - 12 / 10) with 0 by lra. replace (8 / 10 - 8 / 10) with 0 by lra.
+  replace (52 - (52 - 0)) with 0 by lra. replace (68 - (68 + 0)) with 0 by lra.
+  replace (201 / 10 - 20) with (1 / 10) by lra.
+  rewrite Rabs_R0, (Rabs_right (1 / 10)) by lra. lra.
 Qed.
 
 (* a stored cooling-only document is admissible, off the corner, has no heating slope: no heating load anywhere *)
